@@ -821,12 +821,14 @@ func (buf *EventSequencer) Flush() {
 
 	// Flush VXLAN data. Order such that no routes are present in the data plane unless
 	// they have a corresponding VTEP in the data plane as well. Do this by sending VTEP adds
-	// before flushing route adds, and route removes before flushing VTEP removes. We also send
-	// route removes before route adds in order to minimize maximum occupancy.
+	// before flushing route adds, and route removes before flushing VTEP removes. A route add
+	// may also be an update that re-points an existing route away from a VTEP that is being
+	// removed, so VTEP removes go last. We also send route removes before route adds in order
+	// to minimize maximum occupancy.
 	buf.flushRouteRemoves()
-	buf.flushVTEPRemoves()
 	buf.flushVTEPAdds()
 	buf.flushRouteAdds()
+	buf.flushVTEPRemoves()
 
 	// Flush (rare) cluster-wide updates.  There's no particular ordering to these so we might
 	// as well do deletions first to minimise occupancy.
